@@ -165,72 +165,76 @@ def oracles(rec):
                 fail('C04', f'hooks ran out of the documented order: got {got_calls}, documented {exp_calls}')
             def ent(k):
                 return ents[k] if k < len(ents) else {}
-            # scripted outcome, position by position, following the documented order
-            expected = None   # ('err', guard, kind) | ('ok',) | ('panic', what)
-            npos = 0
-            for k in range(len(exp_calls)):
+            def stop_at(k):
+                """what the documented semantics says about hook k given its scripted answer:
+                None = continue, else (category, expected result)"""
                 kind, name, st = exp_calls[k]
                 en = ent(k)
-                npos = k + 1
                 if en.get('x') == '1':
-                    expected = ('panic', 'hook')
-                    break
+                    return ('C19', ('panic', 'hook'))
                 if kind == 'ab' and 'a' in en:
                     a = en['a']
                     nm = name if a == 'I' else a.split('~', 1)[1]
-                    expected = ('err', nm, a)
-                    break
+                    return ('C06', ('err', nm, a))
                 if kind == 'cond':
                     ans = (en['b'] == '1') if 'b' in en else (name in sigma)
-                    pos = dict(conds)[name] if False else conds[k - nab][1]
-                    if ans != pos:
-                        expected = ('err', name, 'G~' + name)
-                        break
+                    if ans != conds[k - nab][1]:
+                        return ('C03', ('err', name, 'G~' + name))
                 if kind == 'aa' and 'a' in en:
                     a = en['a']
                     nm = name if a == 'I' else a.split('~', 1)[1]
-                    expected = ('panic', f'after:{nm}:{e["event"]}')
-                    break
-            else:
-                expected = ('ok',)
-                npos = len(exp_calls)
-            cond_names = [c[0] for c in conds]
-            if expected[0] == 'err' and expected[2].startswith('G~') and 'a' not in ent(npos - 1):
-                cat = 'C03'          # a condition is scripted to block
-            elif expected[0] == 'err' or (expected[0] == 'panic' and expected[1].startswith('after')):
-                cat = 'C06'          # an around callback is scripted to abort
-            elif expected[0] == 'panic':
-                cat = 'C19'
-            else:
-                cat = 'C03' if (res.startswith('errguard') or res.startswith('errdyn:GF')) else 'C04'
+                    return ('C06', ('panic', f'after:{nm}:{e["event"]}'))
+                return None
             is_ok = res == 'ok'
             is_err = res.startswith('errguard:') or res.startswith('errdyn:GF:') or res.startswith('errdyn:AF:') or res.startswith('errdyn:IT:')
-            if len(got_calls) != npos:
-                fail(cat, f'{len(got_calls)} hooks ran; the documented order and the scripted answers require {npos} '
-                          f'(expected outcome {expected})')
-            if expected[0] == 'ok':
-                if not is_ok:
-                    fail(cat, f'every guard holds, no unless holds and nothing aborts, but the call returned {res}')
-            elif expected[0] == 'err':
-                nm, k = expected[1], expected[2]
-                if dyn:
-                    if k == 'I':
-                        want = f'errdyn:IT:{src}:{e["event"]}'
-                        if res != want:
-                            # C12: an invalid-transition error from a dynamic machine names the state it was in
-                            fail('C12' if res.startswith('errdyn:IT:') else cat,
-                                 f'around Before aborted with InvalidTransition in state {src}: handle returned {res}')
-                    else:
-                        want = {'G': f'errdyn:GF:{k[2:]}:{e["event"]}', 'A': f'errdyn:AF:{k[2:]}:{e["event"]}'}[k[0]]
-                        if res != want:
-                            fail(cat, f'expected {want}, handle returned {res}')
+            expected = None
+            cat = None
+            if got_calls == exp_calls[:len(got_calls)]:
+                # follow the hooks that actually ran; the first one whose scripted answer the
+                # implementation did not honour decides which property is violated
+                for k in range(len(got_calls)):
+                    st = stop_at(k)
+                    if st is not None:
+                        cat, expected = st
+                        if k != len(got_calls) - 1:
+                            fail(cat, f'hook #{k} ({exp_calls[k][0]} {exp_calls[k][1]}) answered so that the call must stop there '
+                                      f'({expected}), but {len(got_calls) - k - 1} more hooks ran')
+                            expected = None
+                        break
                 else:
-                    want = f'errguard:{nm}:{e["event"]}:{k}'
-                    if res != want:
-                        fail(cat, f'expected {want}, method returned {res}')
-            elif expected[0] == 'panic':
-                if res != 'panic:' + expected[1]:
-                    fail(cat, f'expected panic {expected[1]}, got {res}')
+                    if len(got_calls) < len(exp_calls):
+                        lastk = exp_calls[len(got_calls) - 1][0] if got_calls else exp_calls[0][0]
+                        cat = {'cond': 'C03', 'ab': 'C06', 'aa': 'C06'}.get(lastk, 'C04')
+                        if not res.startswith('panic:hook'):
+                            fail(cat, f'the call stopped after {len(got_calls)} of {len(exp_calls)} hooks with {res} although every '
+                                      f'hook that ran let it proceed')
+                    else:
+                        cat, expected = 'C04', ('ok',)
+            if expected is not None:
+                if expected[0] == 'ok':
+                    if not is_ok:
+                        fail('C03' if (res.startswith('errguard') or res.startswith('errdyn:GF')) else cat,
+                             f'every hook let the call proceed but it returned {res}')
+                elif expected[0] == 'err':
+                    nm, k = expected[1], expected[2]
+                    if dyn:
+                        if k == 'I':
+                            want = f'errdyn:IT:{src}:{e["event"]}'
+                            if res != want:
+                                # C12: an invalid-transition error from a dynamic machine names the state it was in
+                                fail('C12' if res.startswith('errdyn:IT:') else cat,
+                                     f'around Before aborted with InvalidTransition in state {src}: handle returned {res}')
+                        else:
+                            want = {'G': f'errdyn:GF:{k[2:]}:{e["event"]}', 'A': f'errdyn:AF:{k[2:]}:{e["event"]}'}[k[0]]
+                            if res != want:
+                                fail(cat, f'expected {want}, handle returned {res}')
+                    else:
+                        want = f'errguard:{nm}:{e["event"]}:{k}'
+                        if res != want:
+                            fail(cat, f'expected {want}, method returned {res}')
+                elif expected[0] == 'panic':
+                    if res != 'panic:' + expected[1]:
+                        fail(cat, f'expected panic {expected[1]}, got {res}')
             # C04, conditioned on an observed success
             if is_ok:
                 if got_calls != exp_calls:
